@@ -279,7 +279,24 @@ func (f *fields) delAt(i int) bool {
 	copy(a[i:], a[i+1:])
 	a[len(a)-1] = nil
 	f.a = a[:len(a)-1]
+
+	// the elements following the removed one have moved: update their index
+	for j := i; j < len(f.a); j++ {
+		setFieldName(f.a[j], fmt.Sprintf("%d", j))
+	}
 	return true
+}
+
+// setFieldName updates the name (or index) v is stored under in its parent.
+func setFieldName(v value, name string) {
+	if sub, ok := v.(cfgSub); ok {
+		sub.c.ctx.field = name
+		return
+	}
+
+	ctx := v.Context()
+	ctx.field = name
+	v.SetContext(ctx)
 }
 
 func (f *fields) set(name string, v value) {
